@@ -33,7 +33,7 @@ CLAIMS = {
  "C20": "Call histories as data: K = 3 (2 for list builders) symbolic choices among each builder's setters with symbolic arguments against a canonical builder made from a shadow record (last value per setter, lists in insertion order): same size/error and same bytes at a symbolic index; owned/borrowed variants, PacketBuilder wrapper, one-member compound, NACK and FIR re-adds as alternative constructions.",
 }
 # properties whose quick check has been seen green on the unchanged tree at this revision
-READY = "C01 C02 C03 C04 C05 C06 C07 C08 C09 C10 C11 C12 C13 C15 C16 C17 C18 C19".split()
+READY = " ".join("C%02d" % i for i in range(1, 21)).split()
 PENDING = "check not built yet in this revision (work in progress; technique applies)"
 
 def main():
